@@ -43,6 +43,9 @@ program drv_f
 #ifdef HAVE_Box
   type(box) :: bx(0:NH-1)
 #endif
+#ifdef HAVE_Pt
+  type(pt) :: ptv
+#endif
 #ifdef HAVE_Holder
   type(holder_int) :: hi(0:NH-1)
   type(holder_double) :: hd(0:NH-1)
@@ -223,6 +226,17 @@ contains
        sm = 0
        if (a > 0) sm = sum(iv)
        call res_arr(a, sm); deallocate(iv); deallocate(wv)
+#endif
+#ifndef SIMC
+    case ("pt_sum")
+       ptv%x = a; ptv%y = a + 0.5d0
+       call sim_phase(1); r = pt_sum(ptv); call sim_phase(0); call res_int(int(r))
+    case ("pt_out")
+       ptv%x = -1; ptv%y = -1
+       call sim_phase(1); call pt_out(ptv, int(a, C_INT)); call sim_phase(0); call res_arr(int(ptv%x), int(ptv%y * 2))
+    case ("pt_scale")
+       ptv%x = a; ptv%y = a + 0.5d0
+       call sim_phase(1); call pt_scale(ptv, int(b, C_INT)); call sim_phase(0); call res_arr(int(ptv%x), int(ptv%y * 2))
 #endif
 #ifndef SIMC
     case ("make_box")
